@@ -73,6 +73,8 @@ fn main() {
                     gen_serve::gen_mixed(&mut rng, n_mixed, "c01", &mut emit_serve);
                     gen_serve::gen_chunkings(&mut rng, thorough, &mut emit_serve);
                     gen_serve::gen_c06(&mut rng.fork(), false, &mut emit_serve);
+                    // every If-Range outcome x Range shape (Content-Length must not depend on it)
+                    gen_serve::gen_c05(&mut rng.fork(), false, &mut emit_serve);
                 }
                 "C02" => {
                     gen_serve::gen_mixed(&mut rng, n_mixed, "c02", &mut emit_serve);
